@@ -649,4 +649,108 @@ theorem divLoop_bound (md : Nat) (f : Nat) :
       · exact ih _ _ _ _ (Nat.xor_lt_two_pow i0 i1) i1
       · exact ih _ _ _ _ i0 (Nat.xor_lt_two_pow i1 i0)
 
+theorem pmod_of_lt {md x : Nat} (hmd : md ≠ 0) (h : x < 2 ^ md.log2) : pmod x md = x := by
+  obtain ⟨h1, h2⟩ := pdivmod_spec x md hmd
+  have : clmul (pdivmod x md).1 md ^^^ (pdivmod x md).2 = clmul 0 md ^^^ x := by
+    rw [h1, zero_clmul, Nat.zero_xor]
+  exact (divmod_unique hmd h2 h this).2
+
+theorem divModV_partial (dv a md : Nat) (hmd : md % 2 = 1) (hdv : dv < 2 ^ md.log2) :
+    (ppDivModV dv a md = 0 ∨ pmod (clmul (ppDivModV dv a md) a) md = dv)
+    ∧ ppDivModV dv a md < 2 ^ md.log2 := by
+  have hmd0 : md ≠ 0 := by omega
+  have inv := divLoop_inv md a dv hmd (a.log2 + md.log2 + 4) a md dv 0 (cong_refl _ _)
+    ⟨dv, by rw [zero_clmul, Nat.zero_xor]⟩
+  have bnd := divLoop_bound md (a.log2 + md.log2 + 4) a md dv 0 hdv (Nat.two_pow_pos _)
+  unfold ppDivModV
+  dsimp only
+  split
+  · rename_i h1
+    rw [h1] at inv
+    refine ⟨Or.inr ?_, bnd⟩
+    have := pmod_cong hmd0 inv
+    rw [clmul_one, pmod_of_lt hmd0 hdv] at this
+    exact this
+  · exact ⟨Or.inl rfl, Nat.two_pow_pos _⟩
+
+/-! ## §9 divisibility; the Euclidean `Spec.pgcd` is a greatest common divisor -/
+
+/-- `d ∣ a` in GF(2)[x] -/
+def PDvd (d a : Nat) : Prop := ∃ q, a = clmul q d
+
+theorem pdvd_refl (a : Nat) : PDvd a a := ⟨1, (one_clmul a).symm⟩
+theorem pdvd_zero (d : Nat) : PDvd d 0 := ⟨0, (zero_clmul d).symm⟩
+theorem pdvd_xor {d a b : Nat} (ha : PDvd d a) (hb : PDvd d b) : PDvd d (a ^^^ b) := by
+  obtain ⟨q, hq⟩ := ha
+  obtain ⟨q', hq'⟩ := hb
+  exact ⟨q ^^^ q', by rw [xor_clmul, hq, hq']⟩
+theorem pdvd_mul {d a : Nat} (k : Nat) (ha : PDvd d a) : PDvd d (clmul k a) := by
+  obtain ⟨q, hq⟩ := ha
+  exact ⟨clmul k q, by rw [hq, clmul_assoc]⟩
+
+theorem pmod_eq (a b : Nat) (hb : b ≠ 0) : pmod a b = a ^^^ clmul (pdivmod a b).1 b := by
+  have h := (pdivmod_spec a b hb).1
+  unfold pmod
+  conv => rhs; lhs; rw [← h]
+  rw [Nat.xor_comm (clmul _ _), Nat.xor_assoc, Nat.xor_self, Nat.xor_zero]
+
+theorem pdvd_pmod {d a b : Nat} (hb : b ≠ 0) (ha : PDvd d a) (hdb : PDvd d b) : PDvd d (pmod a b) := by
+  rw [pmod_eq a b hb]; exact pdvd_xor ha (pdvd_mul _ hdb)
+
+theorem pdvd_of_pmod {d a b : Nat} (hb : b ≠ 0) (hr : PDvd d (pmod a b)) (hdb : PDvd d b) : PDvd d a := by
+  have h := (pdivmod_spec a b hb).1
+  rw [← h]
+  exact pdvd_xor (pdvd_mul _ hdb) hr
+
+/-- g is a greatest common divisor of a and b -/
+def IsPGcd (g a b : Nat) : Prop := PDvd g a ∧ PDvd g b ∧ ∀ d, PDvd d a → PDvd d b → PDvd d g
+
+theorem pgcdAux_spec (f : Nat) : ∀ a b, b < 2 ^ f → IsPGcd (pgcdAux f a b) a b := by
+  induction f with
+  | zero =>
+    intro a b hb
+    have : b = 0 := by simpa using hb
+    subst this
+    exact ⟨pdvd_refl a, pdvd_zero a, fun d h _ => h⟩
+  | succ f ih =>
+    intro a b hb
+    unfold pgcdAux
+    split
+    · rename_i h0; subst h0
+      exact ⟨pdvd_refl a, pdvd_zero a, fun d h _ => h⟩
+    · rename_i h0
+      have hr : pmod a b < 2 ^ f := by
+        have h1 := (pdivmod_spec a b h0).2
+        have h2 : b.log2 ≤ f := by
+          have := (Nat.log2_lt h0).2 hb; omega
+        exact Nat.lt_of_lt_of_le h1 (Nat.pow_le_pow_right (by omega) h2)
+      obtain ⟨g1, g2, g3⟩ := ih b (pmod a b) hr
+      exact ⟨pdvd_of_pmod h0 g2 g1, g1, fun d hda hdb => g3 d hdb (pdvd_pmod h0 hda hdb)⟩
+
+theorem pgcd_spec (a b : Nat) : IsPGcd (pgcd a b) a b := by
+  unfold pgcd
+  apply pgcdAux_spec
+  exact Nat.lt_of_lt_of_le (Nat.lt_log2_self (n := b)) (Nat.pow_le_pow_right (by omega) (by omega))
+
+/-- a gcd is unique (the only unit of GF(2)[x] is 1) -/
+theorem isPGcd_unique {g g' a b : Nat} (h : IsPGcd g a b) (h' : IsPGcd g' a b) : g = g' := by
+  obtain ⟨q, hq⟩ := h'.2.2 g h.1 h.2.1      -- g' = q g ... (g ∣ g')
+  obtain ⟨q', hq'⟩ := h.2.2 g' h'.1 h'.2.1  -- g = q' g'
+  by_cases hg : g = 0
+  · subst hg; rw [clmul_zero] at hq; exact hq.symm
+  · have hg' : g' ≠ 0 := by
+      intro h0; rw [h0, clmul_zero] at hq'; exact hg hq'
+    have hq0 : q ≠ 0 := by intro h0; rw [h0, zero_clmul] at hq; exact hg' hq
+    have hl := log2_clmul hq0 hg
+    have hq'0 : q' ≠ 0 := by intro h0; rw [h0, zero_clmul] at hq'; exact hg hq'
+    have hl' := log2_clmul hq'0 hg'
+    rw [← hq] at hl
+    rw [← hq'] at hl'
+    have : q.log2 = 0 := by omega
+    have hq1 : q = 1 := by
+      have := (Nat.log2_lt hq0).1 (by omega : q.log2 < 1)
+      omega
+    rw [hq1, one_clmul] at hq
+    exact hq.symm
+
 end Bee2V.C05.Pp
